@@ -340,7 +340,10 @@ def _run(case: Dict[str, Any], sim: Sim, world: World) -> None:
             if specs:
                 jb = service(op)
                 data = [mk(sp, -1 - n_) for n_, sp in enumerate(specs)]
-                out, side_t = jb.cluster(data, [], rule_key="gml", attribute_key=akey)
+                # "no library yet" is written as [] or as None (documented for the library argument)
+                out, side_t = jb.cluster(data, (None if op.get("s", 0) % 2 else []), rule_key="gml", attribute_key=akey)
+                if not isinstance(side_t, list):
+                    raise Violation(PROP, "BatchCluster.cluster", "library_not_returned", "side job with an empty library", {"got": repr(side_t)[:80]})
                 got = [d.get("class") for d in out]
                 if not rcdata.same_partition(got, rcdata.truth_partition(specs)):
                     raise Violation(PROP, "BatchCluster.cluster", "isomorphic_items_in_different_classes" , "side job with an empty library",
@@ -384,7 +387,10 @@ def _run(case: Dict[str, Any], sim: Sim, world: World) -> None:
             else:
                 site = "BatchCluster.cluster"
                 cond = "templates carried" if had_templates else "no templates"
-                out, templates = service(op).cluster(data, templates, rule_key="gml", attribute_key=akey)
+                lib_arg = None if (not templates and op.get("s", 0) % 3 == 0) else templates
+                out, templates = service(op).cluster(data, lib_arg, rule_key="gml", attribute_key=akey)
+                if not isinstance(templates, list):
+                    raise Violation(PROP, site, "library_not_returned", cond, {"got": repr(templates)[:80]})
             absorb(site, cond, out, specs, uids)
             # probes
             keys = [rcdata.content_key(sp) for sp in specs]
